@@ -27,6 +27,8 @@ def generate(r):
             entries.append(queued.pop(0))
             continue
         kinds = ["let", "fn", "class", "bad", "mod", "closure", "fiber", "badimport", "workers", "abandoned", "latemodule"]
+        if lets:
+            kinds += ["nestedfn", "nestedfn"]
         if classes:
             kinds += ["obj", "sub", "obj"]
         if objs:
@@ -58,6 +60,15 @@ def generate(r):
         elif k == "assign":
             entries.append(["%s = %s + %d; print('a', %s);" % ((r.choice(lets),) * 2 + (r.randint(1, 5),) + (lets[0],)), True])
             # keep it simple: print the first let
+        elif k == "nestedfn":
+            # a function of a later line whose nested lambdas (one and two levels down) read a variable of an earlier line
+            name = "nf%d" % i
+            dep = r.choice(lets)
+            form = r.choice(["fn %s(l) { l.iter().map(|v| v * %s).list() }",
+                             "fn %s(l) { let scale = |v| { let inner = || v + %s; inner() }; l.iter().map(scale).list() }",
+                             "let %s = |l| l.iter().map(|v| v + %s).list();"])
+            entries.append([form % (name, dep), True])
+            queued.append(["print('nested', %s([1, 2, 3]));" % name, True])
         elif k == "fn":
             name = "f%d" % i
             dep = r.choice(lets) if lets else "1"
